@@ -293,7 +293,7 @@ def drive(tg, data, fmt, blanks, minT, maxT, thr, work, k):
         fn = os.path.join(str(work), "c04_%d" % (k % 3))
         with open(fn, "w") as fd:
             fd.write("pre-existing %d\n" % k)
-        call(tg.save, fn, fmt, blanks, minT, maxT, thr, "silence")
+        call(tg.save, fn, fmt, blanks, minT, maxT, thr, ("silence", "warning", "error")[(k // 5) % 3])
     else:
         call(textgrid_io.getTextgridAsStr, _tgToDictionary(tg), fmt, blanks, minT, maxT, thr)
 
